@@ -1,8 +1,9 @@
 /-
   C06 driver: exact evaluation of the bank index model.
 
-  compact  <tri|fbank> <W> <analytic 0|1> <lo p/q> <hi p/q>
+  compact  <tri|fbank> <W> <analytic 0|1> <lo p/q> <hi p/q> <arrays 0|1>
       -> <start> <len> <halfLen> <full> <half> <rebuilt-eq-full 0|1>     | err
+         (arrays = 0: `~ ~ ~` instead of the three array fields — index arithmetic only)
          full / half: `bin:idx,…` — which loop index's value each bin of
          get_frequency_response(…, half=False/True) holds (absent = zero)
   periodic <gabor|gammatone> <W> <lo p/q> <hi p/q> <wrap p/q>
@@ -34,7 +35,14 @@ def showBins (l : List Int) : String :=
   let ps := (l.zipIdx.filter fun p => p.1 ≠ -1).map fun p => s!"{p.2}:{p.1}"
   if ps.isEmpty then "-" else ",".intercalate ps
 
-def compact (k : Compact) (W : Nat) (analytic : Bool) (lo hi : Frac) : Option String := do
+def compact (k : Compact) (W : Nat) (analytic : Bool) (lo hi : Frac) (arrays : Bool) : Option String := do
+  if !arrays then
+    let L := leftIdx W lo
+    let R := rightIdx W hi
+    if !assertsOk W lo hi L R then none
+    let n := truncLen k W L R
+    if n < 0 then none
+    return s!"{L} {n} {halfLen W} ~ ~ ~"
   let (start, tr) ← truncCompact k (-1 : Int) (fun i => i) W lo hi
   let full ← fullCompact (-1 : Int) (fun i => i) W lo hi analytic false
   let half ← fullCompact (-1 : Int) (fun i => i) W lo hi analytic true
@@ -74,13 +82,14 @@ def consts (args : List String) : Option String := do
 def dispatch (line : String) : String :=
   let r : Option String :=
     match tokens line with
-    | ["compact", k, w, an, lo, hi] => do
+    | ["compact", k, w, an, lo, hi, arr] => do
       let k ← if k == "tri" then some Compact.tri else if k == "fbank" then some Compact.fbank else none
       let w ← w.toNat?
       let an ← parseBool an
       let lo ← parseFrac lo
       let hi ← parseFrac hi
-      some ((compact k w an lo hi).getD "err")
+      let arr ← parseBool arr
+      some ((compact k w an lo hi arr).getD "err")
     | ["periodic", k, w, lo, hi, wr] => do
       let g ← if k == "gabor" then some true else if k == "gammatone" then some false else none
       let w ← w.toNat?
